@@ -95,8 +95,21 @@ func c16(r *core.Run) {
 				delCl = cl
 			}
 		}
+		// O2: the removal list is computed inside the callback DelFile runs under its file
+		// lock (the lock registrations take before bumping reference counts) — not in the
+		// handler itself before the lock is held
+		r.Saw(core.FuncName(h))
+		outside := core.Calls(h, gcp)
+		pos := h.Pos()
+		if len(outside) > 0 {
+			pos = outside[0].Pos()
+		}
+		r.Check("C16.O2", core.Key("C16.O2", h, "removal list computed under DelFile's lock"), pos, len(outside) == 0 && delCl != nil,
+			"GetChunkPyramid (which protects chunks other files reference) is asked inside the callback that DelFile runs under its lock", "the delete handler computes the removal list before DelFile took its lock: a file registered in between shares chunks that are then removed from under it")
 	}
-	if delCl == nil {
+	if delCl == nil && w.Func("pkg/api", "(*server).auroraDeleteHandler") != nil && len(core.Calls(w.Func("pkg/api", "(*server).auroraDeleteHandler"), gcp)) > 0 {
+		// reported by O2 above; the provenance rule below has nothing to anchor on
+	} else if delCl == nil {
 		r.Fatal("unresolved anchor: closure of api.auroraDeleteHandler that removes the file's chunks")
 	} else {
 		r.Saw(core.FuncName(delCl))
@@ -468,4 +481,6 @@ func c17(r *core.Run) {
 	}
 	refCountMultiplicity(r, "C17.A2")
 	delFileOrder(r, "C17.O1")
+	// (the delete-at-index lint is not applied to pkg/chunkinfo: its one hit, queue.popNode,
+	// concerns the discovery pull queue, which no clause of C17 speaks about)
 }
